@@ -39,7 +39,16 @@ fn main() {
         let mut valid = 0u64;
         let mut counts: std::collections::BTreeMap<&'static str, u64> = Default::default();
         let mut failed: std::collections::BTreeMap<&'static str, u64> = Default::default();
+        let mut first: std::collections::BTreeMap<&'static str, u64> = Default::default();
+        let mut panics = 0u64;
+        let mut first_panic: i64 = -1;
+        let only: Option<u64> = args.get(5).map(|s| s.parse().unwrap());
         for t in 0..trials {
+            if let Some(o) = only {
+                if t != o {
+                    continue;
+                }
+            }
             native::load_random(seed.wrapping_mul(0x9E3779B97F4A7C15).wrapping_add(t.wrapping_mul(0xD1B54A32D192ED03)));
             vharness::models::rng_reset();
             let r = std::panic::catch_unwind(f);
@@ -49,15 +58,22 @@ fn main() {
                 continue;
             }
             valid += 1;
+            if r.is_err() {
+                panics += 1;
+                if first_panic < 0 {
+                    first_panic = t as i64;
+                }
+            }
             for c in st.covers_hit {
                 *counts.entry(c).or_insert(0) += 1;
             }
             for c in st.failed {
                 *failed.entry(c).or_insert(0) += 1;
+                first.entry(c).or_insert(t);
             }
         }
         let fmt = |m: &std::collections::BTreeMap<&'static str, u64>| m.iter().map(|(k, v)| format!("\"{}\":{}", k, v)).collect::<Vec<_>>().join(",");
-        println!("{{\"harness\":\"{}\",\"trials\":{},\"valid_trials\":{},\"covers\":{{{}}},\"failed\":{{{}}}}}", name, trials, valid, fmt(&counts), fmt(&failed));
+        println!("{{\"harness\":\"{}\",\"trials\":{},\"seed\":{},\"valid_trials\":{},\"covers\":{{{}}},\"failed\":{{{}}},\"first_failing_trial\":{{{}}},\"panics\":{},\"first_panic_trial\":{}}}", name, trials, seed, valid, fmt(&counts), fmt(&failed), fmt(&first), panics, first_panic);
         return;
     }
     let mut txt = String::new();
@@ -74,6 +90,7 @@ fn main() {
                 "lossy" => vharness::mexec::exec_lossy(&m),
                 "heap" => vharness::mexec::exec_heap(&m),
                 "qf" => vharness::mexec::exec_qf(&m),
+                "serde" => vharness::mexec::exec_serde(&m),
                 _ => "{\"error\":\"unknown exec\"}".to_string(),
             };
             println!("{}", out);
